@@ -391,6 +391,18 @@ func GenStream(r *payload.SplitMix, max int) Stream {
 			a = nact
 		}
 	}
+	if last := len(desc) - 1; r.Intn(12) == 0 && (last < 0 || desc[last] != "truncated-tail") {
+		// the stream ends exactly behind a varint that is already too long (ten continuation bytes): no
+		// further byte could make it valid, so this is malformed data, not a frame cut short
+		b = append(b, byte(1+r.Intn(7))<<1)
+		for k := r.Intn(3); k > 0; k-- {
+			b = append(b, byte(1+r.Intn(100))) // 0-2 short fields before the overlong one
+		}
+		for k := 0; k < 10; k++ {
+			b = append(b, 0x80|byte(r.Intn(128)))
+		}
+		desc = append(desc, "ends-behind-an-overlong-varint")
+	}
 	st.Data = b
 	st.Desc = strings.Join(desc, " ")
 	return st
